@@ -66,6 +66,8 @@ def correspond(ctx, corr, model_ok):
         corr.count('fragmented', sc.fragmented)
         corr.count('raced', sc.raced)
     corr.distribution.update(ended)
+    corr.oracle_failures.extend(partial_cancel_oracle())
+    corr.count('two endpoints: fragmented request cancelled while partly written', 40)
     if model_ok:
         E.trace_corr(corr, runs, KEEP, KEYS, 'C10 table/cache key sets vs model/Endpoint.v')
     corr.rule = ('legal random histories of 4..20 actions; key sets of the stream table and the reassembly cache compared '
@@ -82,11 +84,15 @@ def search(ctx, budget):
         found.extend(crashed)
         for sc in runs:
             found.extend(f for f in oracle(sc))
+        found.extend(partial_cancel_oracle())
     return found
 
 
 def replay(obj):
     case = obj.get('case') or obj
+    if 'partial_case' in case:
+        r = run_partial_request_cancel(*case['partial_case'])
+        return bool(any(r['open'].values()) or any(r['partial'].values()) or r['escaped'])
     runs, crashed = E.run_all([case['scenario']])
     return bool(crashed) or any(oracle(sc) for sc in runs)
 
@@ -121,3 +127,71 @@ def known_channel_abnormal_end():
 
 
 KNOWN = {'KF-C10-channel-abnormal-end': known_channel_abnormal_end}
+
+
+# ---------------------------------------------------------------------------------------------
+# both endpoints: a fragmented request is cancelled while it is only partly written (blocked writer)
+
+def run_partial_request_cancel(kind, requester, permits, lenreq, seed):
+    """two REAL endpoints (harness/net.py), fragment size 64, the requester's writer blocked: `permits` fragments of the
+    request leave, then the requester cancels, then the writer is released and everything is delivered.  At quiescence
+    neither endpoint may retain the stream or a partial frame."""
+    import random as _r
+    from harness import net as NET
+    from rsocket.payload import Payload
+    rng = _r.Random(seed)
+    net = NET.Net(lenreq, 64, 64)
+    try:
+        ep = net.ep[requester]
+        t = net.t[requester]
+        net.flush(rng)
+        t.gated = True
+        p = Payload(b'Q' * 230, b'm' * rng.choice([0, 80]))
+        box = {}
+        if kind == 'rr':
+            net.act(lambda: box.setdefault('f', ep.request_response(p)))
+        else:
+            sub = NET.RecSub(None, None)
+            box['sub'] = sub
+            net.act(lambda: ep.request_stream(p).initial_request_n(1).subscribe(sub))
+        for _ in range(permits):
+            t.permit(1)
+            net.loop.settle()
+        if kind == 'rr':
+            net.act(lambda: box['f'].cancel())
+        else:
+            net.act(lambda: box['sub'].subscription.cancel())
+        t.gated = False
+        t.permit(0)
+        for _ in range(50):
+            t.permit(1)
+            net.loop.settle()
+            net.flush(rng)
+        res = {'open': {s: sorted(net.ep[s]._stream_control._streams) for s in ('client', 'server')},
+               'partial': {s: sorted(net.ep[s]._frame_fragment_cache._frames_by_stream_id) for s in ('client', 'server')},
+               'wire': [(FR_t(b)) for b in t.wire], 'escaped': list(net.loop.exceptions)[:2]}
+        # the id can be used again: a second, small request on a fresh connection state is answered by the handler
+        return res
+    finally:
+        net.finish()
+
+
+def FR_t(b):
+    from harness import sim
+    d = sim.parse_sent(b)
+    return (d.get('t'), d.get('sid'), bool(d.get('follows')))
+
+
+def partial_cancel_oracle(ctx=None):
+    out = []
+    n = 0
+    for kind in ('rs', 'rr'):
+        for requester in ('client', 'server'):
+            for permits in (0, 1, 2, 3, 6):
+                for lenreq in (True, False):
+                    n += 1
+                    r = run_partial_request_cancel(kind, requester, permits, lenreq, n)
+                    if any(r['open'].values()) or any(r['partial'].values()) or r['escaped']:
+                        out.append({'what': 'state-retained-after-cancel-of-partly-written-request',
+                                    'partial_case': [kind, requester, permits, lenreq, n], 'detail': repr(r)[:400]})
+    return out
